@@ -32,6 +32,16 @@ type AbortCase struct {
 	SetPH      bool   `json:"set_ph,omitempty"`        // panic handler installed with SetPanicHandler after New instead of the option
 	Publishers int    `json:"publishers,omitempty"`    // > 1: that many goroutines share the ids
 	AsyncH     bool   `json:"async_handler,omitempty"` // a second, asynchronous handler
+	// ShutdownAt > 0: right before event ShutdownAt is published, Shutdown is
+	// called with a context that has already ended while an asynchronous
+	// handler (of another event type) is still running.  It returns the
+	// context's error and the bus stays in service: the publishes that
+	// follow are recorded like the ones before.
+	ShutdownAt int `json:"shutdown_at,omitempty"`
+}
+
+type gateEv struct {
+	Gate bool `json:"gate"`
 }
 
 func GenAbort(t *rapid.T) *AbortCase {
@@ -60,6 +70,9 @@ func GenAbort(t *rapid.T) *AbortCase {
 		c.Publishers = rapid.IntRange(2, 4).Draw(t, "publishers")
 	}
 	c.AsyncH = rapid.IntRange(0, 2).Draw(t, "asyncH") == 0
+	if rapid.IntRange(0, 2).Draw(t, "shutdown") == 0 {
+		c.ShutdownAt = rapid.IntRange(1, c.N).Draw(t, "shutdownAt")
+	}
 	return c
 }
 
@@ -141,8 +154,21 @@ func RunAbort(c *AbortCase) *vkit.Outcome {
 	if c.AsyncH {
 		eventbus.Subscribe(bus, func(e Plain) { inHandler(e.ID) }, eventbus.Async())
 	}
+	gate := make(chan struct{})
+	shutdownErr := error(nil)
+	if c.ShutdownAt > 0 {
+		started := make(chan struct{})
+		eventbus.Subscribe(bus, func(gateEv) { close(started); <-gate }, eventbus.Async())
+		eventbus.Publish(bus, gateEv{true})
+		<-started
+	}
 	reached := map[int]bool{} // the publish call returned or panicked
 	publish := func(id int) {
+		if id == c.ShutdownAt {
+			ended, cancel := context.WithCancel(context.Background())
+			cancel()
+			shutdownErr = bus.Shutdown(ended)
+		}
 		defer func() {
 			recover()
 			mu.Lock()
@@ -170,7 +196,14 @@ func RunAbort(c *AbortCase) *vkit.Outcome {
 			publish(id)
 		}
 	}
+	close(gate)
 	bus.Wait()
+	if c.ShutdownAt > 0 && shutdownErr == nil {
+		// not this property's business (C06); nothing is claimed about
+		// publishes after a Shutdown that reported success
+		o.Class("shutdown_reported_success_case_not_judged")
+		return o
+	}
 	for _, f := range fails {
 		o.Failf("", "options %v (panic handler %v): %s", c.Options, hasPH, f)
 	}
@@ -220,6 +253,9 @@ func RunAbort(c *AbortCase) *vkit.Outcome {
 	}
 	if c.Publishers > 1 {
 		o.Class("concurrent_publishers")
+	}
+	if c.ShutdownAt > 0 && c.ShutdownAt <= c.N {
+		o.Class("publishes_after_a_shutdown_attempt_that_timed_out")
 	}
 	return o
 }
